@@ -4,7 +4,9 @@ import (
 	"encoding/json"
 	"fmt"
 	"go/constant"
+	"go/token"
 	"go/types"
+	"regexp"
 	"os"
 	"os/exec"
 	"path/filepath"
@@ -31,6 +33,8 @@ func runEngines(p *Program, u *Universe, pc *PropConfig, res *checkResult, tier 
 			runLogOnly(p, pc, res)
 		case e == "nondet":
 			runNondetScan(p, pc, res)
+		case strings.HasPrefix(e, "cursor:"):
+			runCursor(p, pc, res, strings.TrimPrefix(e, "cursor:"))
 		}
 	}
 }
@@ -353,4 +357,138 @@ func writeSimpleReplay(id, fn, ob, desc string) string {
 	data, _ := json.MarshalIndent(rec, "", " ")
 	os.WriteFile(path, data, 0o644)
 	return path
+}
+
+// runCursor (C03.1): in the listed functions, a loop that advances a *html.Node cursor through a
+// link field (NextSibling, PrevSibling, Parent, FirstChild, LastChild) must read that link before
+// anything in the loop body that may rewrite node links runs; otherwise a visitor that detaches or
+// replaces the visited node makes the loop lose or repeat siblings.
+func runCursor(p *Program, pc *PropConfig, res *checkResult, fnRx string) {
+	rx := regexp.MustCompile(fnRx)
+	u := NewUniverse()
+	findings := loadFindings()
+	linkVars := map[string]bool{}
+	for _, v := range p.htmlNodeVars(u, "links") {
+		linkVars[v] = true
+	}
+	for _, n := range p.funcOrder {
+		if !rx.MatchString(n) {
+			continue
+		}
+		fn := p.funcs[n]
+		ord := 0
+		for _, b := range fn.Blocks {
+			for _, ins := range b.Instrs {
+				phi, ok := ins.(*ssa.Phi)
+				if !ok {
+					break
+				}
+				if !strings.HasSuffix(phi.Type().String(), "html.Node") {
+					continue
+				}
+				for i, e := range phi.Edges {
+					if !isBackEdge(b.Preds[i], b) {
+						continue
+					}
+					ld, ok := e.(*ssa.UnOp)
+					if !ok || ld.Op != token.MUL {
+						continue
+					}
+					fa, ok := ld.X.(*ssa.FieldAddr)
+					if !ok || fa.X != ssa.Value(phi) {
+						continue
+					}
+					name := fmt.Sprintf("cursor@%s#%d", phi.Comment, ord)
+					ord++
+					// hazard: a link-rewriting instruction that executes before the load in the same iteration
+					hazard := ""
+					for _, blk := range fn.Blocks {
+						if !(blk == ld.Block() || blk.Dominates(ld.Block())) || !b.Dominates(blk) {
+							continue
+						}
+						for _, k := range blk.Instrs {
+							if k == ssa.Instruction(ld) {
+								break
+							}
+							if _, isCall := k.(ssa.CallInstruction); !isCall {
+								if st, isSt := k.(*ssa.Store); !isSt || !storesNodeLink(st) {
+									continue
+								}
+							}
+							ms := p.instrMods(u, k)
+							bad := ms.all
+							for v, l := range ms.vars {
+								if linkVars[v] && l > 1 {
+									bad = true
+								}
+							}
+							if bad {
+								pp := p.fset.Position(posOf(k))
+								hazard = fmt.Sprintf("%s at %s:%d may rewrite node links before the cursor's %s link is read", k.String(), shortPath(pp.Filename, p.repo), pp.Line, fieldNameOf(fa))
+							}
+						}
+					}
+					if hazard == "" {
+						res.obligations++
+						res.discharged++
+						res.perSolver["govc-cursor"]++
+						res.samples = append(res.samples, map[string]interface{}{"function": n, "obligation": name, "verdict": "the cursor's link is read before any link-rewriting instruction of the iteration"})
+						continue
+					}
+					if f := matchFinding(findings, pc.ID, n, name); f != nil {
+						res.known = append(res.known, n+" "+name)
+						fmt.Printf("KNOWN-FINDING: property=%s %s %s: %s (witness: %s)\n", pc.ID, n, name, f.What, f.Witness)
+						continue
+					}
+					res.obligations++
+					path := writeSimpleReplay(pc.ID, n, name, hazard)
+					concrete := false
+					if rr := runHarness(p, pc.ID); rr != nil {
+						if c, _ := rr["confirmed"].(bool); c {
+							concrete = true
+						}
+						attachReplay(path, rr, concrete)
+					}
+					line := fmt.Sprintf("VIOLATION property=%s replay=%s", pc.ID, path)
+					if !concrete {
+						line += " no-failing-input-found"
+					}
+					addViolationLine(res, line)
+					res.violations = append(res.violations, n+" "+name+": "+hazard)
+				}
+			}
+		}
+	}
+}
+
+func storesNodeLink(st *ssa.Store) bool {
+	fa, ok := st.Addr.(*ssa.FieldAddr)
+	if !ok {
+		return false
+	}
+	switch fieldNameOf(fa) {
+	case "Parent", "FirstChild", "LastChild", "PrevSibling", "NextSibling":
+		return strings.HasSuffix(fa.X.Type().String(), "html.Node")
+	}
+	return false
+}
+
+func fieldNameOf(fa *ssa.FieldAddr) string {
+	st := fa.X.Type().Underlying().(*types.Pointer).Elem().Underlying().(*types.Struct)
+	return st.Field(fa.Field).Name()
+}
+
+func attachReplay(path string, rr map[string]interface{}, concrete bool) {
+	data, err := os.ReadFile(path)
+	if err != nil {
+		return
+	}
+	var rec map[string]interface{}
+	if json.Unmarshal(data, &rec) != nil {
+		return
+	}
+	rec["replay"] = rr
+	rec["concrete_failing_input"] = concrete
+	out, _ := json.MarshalIndent(rec, "", " ")
+	os.WriteFile(path, out, 0o644)
 }
